@@ -199,6 +199,7 @@ type run struct {
 	lastObs    obs
 	notes      []string
 	windowHeld bool
+	blind      string // non-empty: workers not identifiable, run is undecidable
 }
 
 func newRun(sp spec) *run {
@@ -218,6 +219,11 @@ func newRun(sp spec) *run {
 		r.te = timed.NewTaskExecutor[int](sp.Workers, timed.WithMaxQueueSize(sp.MaxSize))
 	default:
 		panic("kind " + sp.Kind)
+	}
+	// self-check of the structural rules: every worker that must exist by configuration has to be visible in a snapshot
+	// (runnable or parked). If not, the snapshot rules are blind on this build and no verdict may be derived from them.
+	if o := r.observe(); o.nWorkers != sp.Workers && sp.Script != "size-bound" || sp.Script == "size-bound" && sp.Kind != kQueue && o.nWorkers != sp.Workers {
+		r.blind = fmt.Sprintf("snapshot shows %d worker goroutine(s) of runtime/timed, configuration has %d", o.nWorkers, sp.Workers)
 	}
 	return r
 }
@@ -465,6 +471,11 @@ func (o obs) allParked() bool { return o.parked == o.nWorkers }
 func (o obs) allInPoll() bool { return o.pollCond+o.pollSelect+o.pollOther == o.nWorkers }
 func (o obs) allIdle() bool   { return o.pollCond == o.nWorkers }
 
+// timedPkgFrame matches any function of package runtime/timed (methods, closures, generic instantiations).
+const timedPkgFrame = "hive.go/runtime/timed."
+
+// isPollFrame matches the exported method Queue.Poll - the only hive.go function name the snapshot rules rely on
+// (besides Executor.Shutdown); it may appear anywhere in the stack, whatever helpers it calls.
 func isPollFrame(f string) bool {
 	return strings.Contains(f, "runtime/timed.(*Queue[") && strings.HasSuffix(f, ".Poll")
 }
@@ -501,7 +512,21 @@ func (r *run) observe() obs {
 			continue
 		}
 		switch {
-		case g.Has("timed.(*Executor).startBackgroundWorkers") || g.Has("main.(*run).poller"):
+		case g.Has("main.(*run).doShutdown"):
+			// harness-owned goroutine calling the exported Shutdown
+			if g.State == "semacquire" && g.Has("sync.(*WaitGroup).Wait") && g.Has("timed.(*Executor).Shutdown") {
+				o.shutdown = 1
+			} else {
+				o.shutdown = 2
+			}
+		case g.Has("main.(*run).client"):
+			o.clients++
+		case g.Has("main.(*run).monitor"), g.Has("main.runScript"), g.Has("main.runRandom"):
+			// other harness-owned goroutines (driver, monitor): never workers
+		case g.Has("main.(*run).poller") || g.Has(timedPkgFrame):
+			// worker: a poller the harness started itself, or a goroutine the harness did not create that has any frame
+			// in package runtime/timed (an Executor worker, whatever its function is called). Its position is decided from
+			// the goroutine state, stdlib frames, the exported Queue.Poll frame anywhere in the stack and harness frames only.
 			o.nWorkers++
 			fmt.Fprintf(&sig, "%d:%s;", g.ID, g.State)
 			// A worker counts as parked only where no delivery decision can be in flight: anywhere inside Queue.Poll
@@ -522,14 +547,6 @@ func (r *run) observe() obs {
 				o.parked++
 				o.inCallback++
 			}
-		case g.Has("main.(*run).doShutdown"):
-			if g.State == "semacquire" && g.Has("sync.(*WaitGroup).Wait") && g.Has("timed.(*Executor).Shutdown") {
-				o.shutdown = 1
-			} else {
-				o.shutdown = 2
-			}
-		case g.Has("main.(*run).client"):
-			o.clients++
 		}
 	}
 	o.sig = sig.String()
